@@ -139,7 +139,19 @@ def r15a(P, R):
                     default = default or next(iter(made))
     json_to = table.get("json")
     gql_to = table.get("graphql", default)
-    if json_to and "Introspection" in json_to and gql_to == "GraphQL":
+    # ... and what it is indexed by: the extension is what follows the LAST dot of the file name (`Path::extension`, `rsplit*`,
+    # `ends_with`).  Cutting at the FIRST dot (`split_once`, `split`, `splitn`, `find`) makes `graphql.schema.json` an unknown extension.
+    pvk = Prov(k)
+    keyed = set()
+    for m in k.walk():
+        if m.get("k") == "Match" and m.get("src") == "Normal" and any(plits_(arm["pat"]) for arm in m["arms"]):
+            keyed |= {x[1].split("::")[-1] for x in pvk.atoms(m["scrut"]) if x[0] == "call"}
+    first_dot = sorted(keyed & {"split_once", "split", "splitn", "find", "split_terminator", "split_inclusive"})
+    last_dot = keyed & {"extension", "rsplit_once", "rsplit", "rsplitn", "rfind", "ends_with"}
+    if table and first_dot and not last_dot:
+        R.violated("R15-a", "route-by-extension", "the extension table is indexed by what follows the FIRST dot of the file name (%s), not by the extension: a schema file "
+                   "named like `graphql.schema.json` or `api.v2.json` is not recognised as introspection JSON and is parsed as SDL" % ", ".join(first_dot), loc=k.loc())
+    elif json_to and "Introspection" in json_to and gql_to == "GraphQL":
         R.holds("R15-a", "route-by-extension", "`.json` -> introspection, `.graphql` -> SDL%s" % ("" if "graphql" in table else " (by the default arm)"), loc=k.loc())
     elif table and (json_to is None or "Introspection" not in json_to or (gql_to is not None and gql_to != "GraphQL")):
         R.violated("R15-a", "route-by-extension", "the extension table sends `.json` to %s and `.graphql` to %s: a schema given as introspection JSON / SDL is read by "
@@ -264,6 +276,10 @@ def ctor_sites(f, suffix):
         if d and ("::" + suffix + "::") in ("::" + d):
             out.append((i, d.split("::")[-1]))
     return out
+
+
+def plits_(p_):
+    return {x.get("v") for x in subnodes(p_) if x.get("k") == "PatExpr" and x.get("lk") == "str"}
 
 
 def r15b(P, R):
@@ -548,6 +564,32 @@ def r15c(P, R):
                     R.violated("R15-c", "zip-after-drop:" + short(f.path), "%s pairs two sequences by position (`zip`) after %s: when an element is absent the later ones "
                                "shift and are paired with the wrong entry (e.g. the subscription root recorded as the mutation root)"
                                % (f.path, "; ".join("%s on the %s" % (v, w) for w, v in sorted(bad.items()))), loc=f.loc())
+    # lists that a schema may simply not have (an object or interface without `implements`, a type whose fields the server did not
+    # send) are optional in the JSON as they are in SDL: their absence (`null`, missing key) reads as the empty list, never as an error
+    may_be_absent = {"interfaces", "fields"}
+    for f in [g for g in conv if g.path.startswith(INC)]:
+        pvf = None
+        for z in f.walk():
+            opt, fails = None, False
+            if z.get("k") == "Let" and "els" in z and z.get("init") is not None:
+                opt, fails = z["init"], any((call_name(y) or "").endswith("Result::Err") for y in subnodes(z["els"]) if y.get("k") == "Call")
+            elif z.get("k") == "MethodCall" and z["method"] in ("ok_or", "ok_or_else", "expect", "unwrap"):
+                opt, fails = z["recv"], True
+            elif z.get("k") == "If" and z["cond"].get("k") == "LetExpr" and z.get("else") is not None:
+                opt, fails = z["cond"].get("init"), any((call_name(y) or "").endswith("Result::Err") for y in subnodes(z["else"]) if y.get("k") == "Call")
+            if opt is None or not fails:
+                continue
+            pvf = pvf or Prov(f)
+            req = sorted({x[2] for x in pvf.atoms(opt) if x[0] == "field" and x[1].endswith("::IntrospectionType") and x[2] in may_be_absent})
+            # only the Option itself, not something computed from the list's elements
+            direct = [y for y in subnodes(opt) if y.get("k") == "Field" and y.get("field") in req and not any(
+                w.get("k") == "MethodCall" and w["method"] in ("iter", "flatten", "map", "into_iter") for w in subnodes(opt))]
+            for fld in sorted({y["field"] for y in direct}):
+                k_ = "absent-list:%s:%s" % (short(f.path), fld)
+                if any(r["key"] == "R15-c:" + k_ for r in R.results):
+                    continue
+                R.violated("R15-c", k_, "%s fails when `%s` of a __Type is null or missing: that list is optional (older servers send no `interfaces` for an "
+                           "interface type; SDL lets a type have none), so a schema the SDL route accepts is rejected on the JSON route" % (f.path, fld), loc=f.loc())
     # a list of the introspection result is filtered by `kind` only in agreement with what the specification puts in that list
     spec_kinds = {"interfaces": {"INTERFACE"}, "possible_types": {"OBJECT"}}
     for f in [g for g in conv if g.path.startswith(INC)]:
@@ -606,15 +648,67 @@ def r15c(P, R):
             pv = pv or Prov(f)
             a = pv.deep_atoms(cond)
             lits = {v for v in (y[1] for y in a if y[0] == "lit") if isinstance(v, str)}
+            # names listed as patterns in the helpers the condition calls (`matches!(name, "Int" | "Float" ..)`)
+            for y in a:
+                if y[0] == "call" and y[1] in P.fns and y[1].startswith(SEM):
+                    lits |= {z.get("v") for z in P.fns[y[1]].walk() if z.get("k") == "PatExpr" and z.get("lk") == "str"}
+            lits |= {z.get("v") for z in subnodes(cond) if z.get("k") == "PatExpr" and z.get("lk") == "str"}
             prefix_test = any(y[0] == "call" and y[1].split("::")[-1] in ("starts_with", "strip_prefix") for y in a)
             key = "skip:%s" % short(f.path)
-            if prefix_test and lits == {"__"}:
+            flags = [nm for pp, t, nm in zip(f.params, f.sig_inputs, canon_params(f)) if t == "bool" and ("param", nm) in pv.atoms(cond)]
+            if flags and lits - {"__"}:
+                # the skip is an option of the converter: judged where it is switched on.  Leaving out definitions on the JSON route is
+                # sound only where the SDL route loses the same ones (the result goes through remove_builtins)
+                pos = [nm for nm in canon_params(f)].index(flags[0])
+                todo, seen_w, sites = [f.path], set(), []
+                while todo:
+                    tgt = todo.pop()
+                    if tgt in seen_w:
+                        continue
+                    seen_w.add(tgt)
+                    for cp in P.callers_of(tgt):
+                        g = P.fns[cp]
+                        if "::tests" in cp or g.derived:
+                            continue
+                        for c in g.walk():
+                            if c.get("k") == "Call" and call_name(c) == tgt and pos < len(c["args"]):
+                                sites.append((g, c, lit_value(c["args"][pos])))
+                on = [(g, c) for g, c, v in sites if v is True]
+                unknown = [(g, c) for g, c, v in sites if v not in (True, False)]
+                bad = []
+                for g, c in on:
+                    gpv = Prov(g)
+                    rb = [y for y in g.walk() if y.get("k") == "Call" and (call_name(y) or "").endswith("remove_builtins")]
+                    if not any(("call", call_name(c)) in gpv.atoms(y) and _flows(gpv, c, y) for y in rb):
+                        bad.append("%s (line %s)" % (short(g.path), c["s"][0] if isinstance(c.get("s"), list) else "?"))
+                if bad:
+                    R.violated("R15-c", key, "%s can leave out the definitions named %s, and %s switches that on for a result that does not go through remove_builtins: "
+                               "on the JSON route those definitions (e.g. the built-in scalars) are missing from what is printed, while the SDL route has them"
+                               % (f.path, sorted(lits - {"__"}), ", ".join(bad)), loc=f.loc())
+                elif unknown:
+                    R.undecided("R15-c", key, "%s leaves out definitions under a flag that some caller passes as a computed value" % f.path, loc=f.loc())
+                else:
+                    R.holds("R15-c", key, "the optional omission of %s is switched on only where the result also goes through remove_builtins" % sorted(lits - {"__"}), loc=f.loc())
+            elif prefix_test and lits == {"__"}:
                 R.holds("R15-c", key, "skips only names with the reserved prefix `__`", loc=f.loc())
             elif prefix_test and lits:
                 R.violated("R15-c", key, "%s skips the elements whose name starts with %s while converting: only the prefix `__` is reserved for the "
                            "introspection system, so user definitions (e.g. `_Service`, `_Entity`) are dropped on this route" % (f.path, sorted(lits)), loc=f.loc())
             else:
                 R.undecided("R15-c", key, "%s skips elements under a condition this rule does not read (literals %s)" % (f.path, sorted(lits)), loc=f.loc())
+
+
+def _flows(pv, call, sink):
+    """does the value of `call` reach an argument of `sink` (same function): the sink's arguments derive from a local bound to it"""
+    for a_ in sink.get("args", []):
+        if call is a_ or any(y is call for y in subnodes(a_)):
+            return True
+        for y in subnodes(a_):
+            if y.get("k") == "Path" and "local" in y:
+                for src, _ in pv.src.get(y["local"], []):
+                    if isinstance(src, dict) and (src is call or any(z is call for z in subnodes(src))):
+                        return True
+    return False
 
 
 def shadowed_fns(P, crate):
